@@ -312,7 +312,54 @@ def _diamond_ops(n):
     return "\n".join(out) + "\n"
 
 
+def _doubling(kind):
+    """Each definition refers to the next one twice: n definitions, 2^n paths. Leaves valid / invalid / closing a cycle."""
+    def gen(n, kind=kind):
+        n = n * 2
+        out = ["module M"]
+        if kind.startswith("keys"):
+            for i in range(n):
+                out.append("compact struct K%d { a: K%d, b: K%d }" % (i, i + 1, i + 1))
+            out.append("compact struct K%d { x: %s }" % (n, "float64" if kind == "keys-invalid-leaf" else "int32"))
+            out.append("struct U { d: Dictionary<K0, bool> }")
+        elif kind.startswith("contain"):
+            for i in range(n):
+                out.append("struct S%d { a: S%d, b: Sequence<S%d> }" % (i, i + 1, i + 1))
+            out.append("struct S%d { x: %s }" % (n, "S0?" if kind == "contain-cycle-at-leaf" else "bool"))
+        elif kind == "alias-result":
+            for i in range(n):
+                out.append("typealias A%d = Result<A%d, A%d>" % (i, i + 1, i + 1))
+            out.append("typealias A%d = bool" % n)
+            out.append("struct U { a: A0 }")
+        elif kind == "alias-dictionary-value":
+            for i in range(n):
+                out.append("typealias A%d = Dictionary<string, Sequence<A%d>>" % (i, i + 1))
+            out.append("typealias A%d = Dictionary<float32, bool>" % n)
+            out.append("interface I { op(a: A0, b: A0) -> A0 }")
+        elif kind == "inherit":
+            out.append("interface I%d { z() }" % n)
+            for i in range(n - 1, -1, -1):
+                out.append("interface L%d : I%d { l%d() }" % (i, i + 1, i))
+                out.append("interface I%d : L%d, I%d { o%d() }" % (i, i, i + 1, i))
+        elif kind == "inherit-redeclare":
+            out.append("interface I%d { z() }" % n)
+            for i in range(n - 1, -1, -1):
+                out.append("interface L%d : I%d {}" % (i, i + 1))
+                out.append("interface I%d : L%d, I%d {}" % (i, i, i + 1))
+            out.append("interface Bad : I0 { z() }")
+        return "\n".join(out) + "\n"
+    return gen
+
+
 SCALING = {
+    "doubling-keys-valid-leaf": _doubling("keys-valid-leaf"),
+    "doubling-keys-invalid-leaf": _doubling("keys-invalid-leaf"),
+    "doubling-containment": _doubling("contain-acyclic"),
+    "doubling-containment-cycle-at-leaf": _doubling("contain-cycle-at-leaf"),
+    "doubling-alias-result": _doubling("alias-result"),
+    "doubling-alias-dictionary-value": _doubling("alias-dictionary-value"),
+    "doubling-inheritance": _doubling("inherit"),
+    "doubling-inheritance-redeclare": _doubling("inherit-redeclare"),
     "dense-containment-dag": _dense_containment,
     "dense-inheritance-dag": _dense_inheritance,
     "dense-compact-key-dag": _dense_keys,
@@ -356,3 +403,34 @@ TEXT_VARIANTS = [
     ("line-sep", lambda t: t.replace("\n", " ")),
     ("upper", lambda t: t.upper()),
 ]
+
+
+def doc_product_programs():
+    """Every tag kind x message with / without a link (resolvable or not) x every commentable position (and the operation
+    shapes), including the combinations that are lints."""
+    positions = {
+        "struct": "module M\n{doc}struct Host {{ a: bool }}\n",
+        "field": "module M\nstruct Host {{\n{doc}a: bool }}\n",
+        "interface": "module M\n{doc}interface Host {{ op() }}\n",
+        "op-void": "module M\ninterface Host {{\n{doc}hostop(p: bool) }}\n",
+        "op-single": "module M\ninterface Host {{\n{doc}hostop(p: bool) -> bool }}\n",
+        "op-tuple": "module M\ninterface Host {{\n{doc}hostop(p: bool) -> (a: bool, b: bool) }}\n",
+        "enum": "module M\n{doc}enum Host {{ A }}\n",
+        "enumerator": "module M\nenum Host {{\n{doc}A(f: bool) }}\n",
+        "enumerator-field": "module M\nenum Host {{ A(\n{doc}f: bool) }}\n",
+        "custom": "module M\n{doc}custom Host\n",
+        "alias": "module M\n{doc}typealias Host = bool\n",
+        "module": "{doc}module M\nstruct Host {{}}\n",
+        "parameter": "module M\ninterface Host {{ hostop(\n{doc}p: bool) }}\n",
+    }
+    msgs = ["text", "{@link Host}", "x {@link Nope} y", "{@link Host} {@link Host::a} {@link ::M::Host}", "", "{@link", "{@link }", "{@see Host}"]
+    tags = ["%s", "@param p: %s", "@param nope: %s", "@returns: %s", "@returns a: %s", "@returns nope: %s", "@see Host", "@see Nope", "@param p\n///   %s",
+            "@returns\n///     %s\n/// @see Host", "@unknown %s"]
+    for pname, tpl in positions.items():
+        for tag in tags:
+            for m in (msgs if "%s" in tag else [""]):
+                line = tag % m if "%s" in tag else tag
+                doc = "/// " + line + "\n"
+                yield (pname, tag, m), tpl.format(doc=doc)
+                # two tags of the same kind, and a tag after an overview with a link
+                yield (pname, tag, m, "x2"), tpl.format(doc="/// intro {@link Host}\n" + doc + doc)
